@@ -817,7 +817,12 @@ impl<'a> LiveEvents<'a> {
     /// still waiting to be reported: `true` is returned so that the caller polls once more and
     /// receives it, instead of ending the stream as if it were complete.
     pub(crate) fn skip_to_next_document(&mut self) -> bool {
-        self.skip_to_next_document_impl() || self.error.borrow().is_some()
+        self.skip_to_next_document_impl() || self.io_error_pending()
+    }
+
+    /// The reader has failed (or the input cap was hit) and that error has not been reported yet.
+    pub(crate) fn io_error_pending(&self) -> bool {
+        self.error.borrow().is_some()
     }
 
     fn skip_to_next_document_impl(&mut self) -> bool {
